@@ -259,6 +259,11 @@ func structOf(ks []kind, allowBig bool) typ {
 // selPos, two arms (vals 1 and 2) at positions a1 < a2 (both after selPos) and
 // the other kinds in the remaining positions.
 func variantOf(selW int, arm1, arm2 kind, others []kind, selPos, a1, a2 int) typ {
+	return variantOfVals(selW, 1, 2, arm1, arm2, others, selPos, a1, a2)
+}
+
+// variantOfVals: the same with the two arms selected by the values v1 and v2 of the selector.
+func variantOfVals(selW int, v1, v2 uint64, arm1, arm2 kind, others []kind, selPos, a1, a2 int) typ {
 	n := 3 + len(others)
 	s := &Shape{Kind: Struct, Fields: make([]Field, n)}
 	selName := fname(selPos)
@@ -274,10 +279,10 @@ func variantOf(selW int, arm1, arm2 kind, others []kind, selPos, a1, a2 int) typ
 			s.Fields[i] = Field{Name: fname(i), S: &Shape{Kind: Enum, Size: selW}}
 			slots[i].arm = -1
 		case a1:
-			s.Fields[i] = Field{Name: fname(i), S: arm1.s, Selector: selName, Val: 1}
+			s.Fields[i] = Field{Name: fname(i), S: arm1.s, Selector: selName, Val: v1}
 			slots[i] = slot{arm1, 1}
 		case a2:
-			s.Fields[i] = Field{Name: fname(i), S: arm2.s, Selector: selName, Val: 2}
+			s.Fields[i] = Field{Name: fname(i), S: arm2.s, Selector: selName, Val: v2}
 			slots[i] = slot{arm2, 2}
 		default:
 			s.Fields[i] = Field{Name: fname(i), S: others[oi].s}
@@ -294,10 +299,10 @@ func variantOf(selW int, arm1, arm2 kind, others []kind, selPos, a1, a2 int) typ
 		}
 		return nil
 	}
-	for _, choice := range []uint64{1, 2} {
+	for ci, choice := range []uint64{v1, v2} {
 		// all valid small values of the chosen arm x all of the others' first two values
 		var armK kind
-		if choice == 1 {
+		if ci == 0 {
 			armK = arm1
 		} else {
 			armK = arm2
@@ -311,7 +316,7 @@ func variantOf(selW int, arm1, arm2 kind, others []kind, selPos, a1, a2 int) typ
 				switch {
 				case slots[i].arm == -1:
 					base[i] = choice
-				case slots[i].arm == int(choice):
+				case slots[i].arm == ci+1:
 					base[i] = av.v
 				case slots[i].arm == 0:
 					base[i] = first(slots[i].k)
@@ -352,9 +357,13 @@ func variantOf(selW int, arm1, arm2 kind, others []kind, selPos, a1, a2 int) typ
 		}
 		return l
 	}
-	t.vals = append(t.vals, val{v: mk(0, nil, nil)}, val{v: mk(3, nil, nil)}, val{v: mk(1, nil, nil)},
-		val{v: mk(1, nil, first(arm2))}, val{v: mk(1, first(arm1), first(arm2))}, val{v: mk(2, first(arm1), nil)},
-		val{v: mk(maxU(selW), first(arm1), nil)})
+	for _, u := range []uint64{0, v1 - 1, v1 + 1, v2 + 1, v2 & 0xffffffff, v1 & 0xffff, maxU(selW)} { // values of the selector that name no arm
+		if u != v1 && u != v2 && u <= maxU(selW) {
+			t.vals = append(t.vals, val{v: mk(u, nil, nil)}, val{v: mk(u, first(arm1), nil)})
+		}
+	}
+	t.vals = append(t.vals, val{v: mk(v1, nil, nil)},
+		val{v: mk(v1, nil, first(arm2))}, val{v: mk(v1, first(arm1), first(arm2))}, val{v: mk(v2, first(arm1), nil)})
 	return t
 }
 
@@ -504,6 +513,28 @@ func genTypes(thorough bool) []typ {
 					}
 				}
 			}
+		}
+	}
+	// selectors of every width with arms named by values at the width's boundaries and around 2^8, 2^16, 2^31, 2^32
+	u8, op := ks[0], ks[0]
+	for _, k := range ks {
+		if k.s.Kind == Bytes && k.s.Min == 0 && k.s.Max == 255 {
+			op = k
+		}
+	}
+	for _, selW := range []int{1, 2, 3, 4, 5, 6, 7, 8} {
+		m := maxU(selW)
+		pairs := [][2]uint64{{m - 1, m}, {0, m}}
+		for _, b := range []uint64{1 << 8, 1 << 16, 1 << 31, 1 << 32, 1 << 63} {
+			if b <= m && b-1 != m {
+				pairs = append(pairs, [2]uint64{b - 1, b})
+				if b+1 <= m {
+					pairs = append(pairs, [2]uint64{b, b + 1})
+				}
+			}
+		}
+		for _, pr := range pairs {
+			ts = append(ts, variantOfVals(selW, pr[0], pr[1], u8, op, nil, 0, 1, 2), variantOfVals(selW, pr[0], pr[1], op, u8, []kind{u8}, 1, 2, 3))
 		}
 	}
 	ts = append(ts, twoSelectorTypes()...)
